@@ -538,7 +538,8 @@ class World:
             hooks = lspec.get('hooks', ['setUp', 'tearDown', 'testSetUp',
                                         'testTearDown'])
             # (convention: 'zz_*' layers claim to live in module zzmod)
-            lmod = 'zzmod' if lname.startswith('zz_') else self.module_name
+            lmod = ('zzmod' if lname.startswith('zz_') else
+                    'zope_testrunner_layer' if lname.startswith('UnitTests') else self.module_name)
             if lspec.get('kind', 'class') == 'class':
                 d = {'__module__': lmod}
                 for h in hooks:
@@ -717,6 +718,9 @@ class World:
                 continue
             if a.get('only_parent') and is_child():
                 continue
+            if a.get('only_iter') and self.iter_count.get(tid, 1) != a['only_iter']:
+                # (--repeat: the test misbehaves in one iteration only)
+                continue
             kind = a['a']
             if self.spec.get('ref_mode') and kind == 'write':
                 # reference run: where the write sits relative to the result
@@ -751,6 +755,11 @@ class World:
                 raise SystemExit(a.get('code', 5))
             elif kind == 'kbint':
                 raise KeyboardInterrupt()
+            elif kind == 'chdir':
+                # the test changes the working directory and does not go back
+                if not self.spec.get('ref_mode'):
+                    import tempfile
+                    os.chdir(tempfile.gettempdir())
             elif kind == 'write':
                 self._write(a, tid)
             elif kind == 'snap':
